@@ -5,6 +5,7 @@ CONSTANTS NW = 2
  MaxTag = 1
  MaxObj = 1
  MaxQ = 1
+ NKeys = 2
  MaxL = 2
  Flags = {0, 1, 2}
  YieldOpts = {0}
